@@ -159,9 +159,23 @@ def shm_attach_hook(ex, st, f, args, kwargs):
     return glue._shm(ex, st, f, args, kwargs)
 
 
+def merge_call_hook(ex, st, f, args, kwargs):
+    """inside the helpers a call of <sketch>.merge(other) is one abstract step 'self absorbs other'
+    (by contract: the merge() rows - every accepting path reaches the family's kernel on the two
+    operands' own tables, or other has seen nothing - are obligations of their own)"""
+    selfv = getattr(f, "selfref", None)
+    other = args[0] if args else None
+    if isinstance(selfv, Ref) and isinstance(other, Ref):
+        st.effects.append(("merge-call", block_of(st, selfv), block_of(st, other)))
+        return [("val", Const(None), st)]
+    return None
+
+
 def make_exec(chk, hooks=None):
     mods = [chk.module(m) for m in ("countmin", "hyperloglog", "heavyhitters", "helpers")]
     hk = dict(glue.HOOKS)
+    for cls_ in ("CountMinLinear", "CountMinLog16", "CountMinLog8", "HyperLogLog", "HeavyHitters"):
+        hk[("call", cls_ + ".merge")] = merge_call_hook
     hk[("external", "SharedMemory")] = shm_attach_hook
     hk.update(hooks or {})
     return HelperExec(mods, hk)
